@@ -76,9 +76,9 @@ std::vector<Eigenspace> solveSEWithSplinePotential(PSpline v) {
 
   std::vector<Eigenspace> ret;
   ret.reserve(10);
-  // Return the eigenvalues and eigenfunctions corresponding to the ten lowest
-  // eigenvalues.
-  for (size_t i = 0; i < 10; i++) {
+  // Return the eigenvalues and eigenfunctions corresponding to the (at most)
+  // ten lowest eigenvalues.
+  for (size_t i = 0; i < std::min<size_t>(10, basis.size()); i++) {
     const auto eigenvalue = eigenvalues(i);
     const auto eigenvector = toStdVector(eigenvectors.col(i));
 
